@@ -77,15 +77,15 @@ PUSHES = [
 ]
 
 def depths(arity, heavy):
-    quick = {0: [0, 2], 1: [0, 1, 2], 2: [1, 2, 3], 3: [2, 3, 4]}[arity]
+    quick = {0: [0, 2], 1: [0, 1], 2: [1, 2], 3: [2, 3]}[arity]
     thorough = [d for d in range(0, 5 if arity == 3 else 4) if d not in quick]
     if heavy:  # arithmetic kernels: only "exactly enough" in the quick tier
         thorough = sorted(set(thorough + [d for d in quick if d != arity]))
         quick = [arity]
     return quick, thorough
 
-def tuple_for(prim, d, dest, dest_depth=1):
-    t = {"i": 1, "f": 1, "b": 1}
+def tuple_for(prim, d, dest, dest_depth=1, other=1):
+    t = {"i": other, "f": other, "b": other}
     t[prim] = d
     if dest and dest != prim:
         t[dest] = dest_depth
@@ -98,12 +98,12 @@ out = ['''//! STEP harness instances for C01 / C02 / C03.  GENERATED by gen/gen_
 mod proofs {
     use push::instruction::{BoolInstruction, FloatInstruction, IntInstruction};
 
-    use crate::c01_step::{any_model, check_step};
+    use crate::c01_step::{any_model, any_model_lean, check_step};
     use crate::push_ref::*;
 ''']
 count = [0, 0]
 def emit(name, body, thorough):
-    out.append("    %s#[kani::proof]\n    #[kani::unwind(7)]\n    fn %s() {\n%s\n        crate::witness!(true, \"WITNESS reached\");\n    }\n" % (
+    out.append("    %s#[kani::proof]\n    #[kani::unwind(8)]\n    fn %s() {\n%s\n        crate::witness!(true, \"WITNESS reached\");\n    }\n" % (
         '#[cfg(feature = "thorough")]\n    ' if thorough else "", name, body))
     count[1 if thorough else 0] += 1
 
@@ -112,15 +112,32 @@ for fam, lst in (("int", INT), ("float", FLOAT), ("bool", BOOL)):
         q, t = depths(arity, heavy)
         for tier, ds in ((False, q), (True, t)):
             for d in ds:
-                di, df, db = tuple_for(prim, d, dest)
-                pre = "        let pre = any_model(%d, %d, %d);" % (di, df, db)
+                di, df, db = tuple_for(prim, d, dest, 1, 0 if heavy else 1)
+                pre = "        let pre = %s(%d, %d, %d);" % ("any_model_lean" if heavy else "any_model", di, df, db)
                 extra = ""
                 if n == "power" and d >= 2:
                     extra = ("\n        // stated operand domain of Power (the multiplier chains of checked_pow do not finish otherwise)\n"
-                             "        { let (x, y) = (pre.i.top(0), pre.i.top(1)); kani::assume(y <= 2 || (x >= -3 && x <= 3 && y <= 70)); }")
+                             "        { let (x, y) = (pre.i.top(0), pre.i.top(1)); kani::assume(y <= 2); }")
+                if n in ("protected_divide", "mod") and fam == "int" and d >= 2 and not tier:
+                    extra = ("\n        // quick tier: narrow operands plus the extremes (two 64-bit dividers against each other exceed 240 s full width)\n"
+                             "        { let (x, y) = (pre.i.top(0), pre.i.top(1));\n"
+                             "          kani::assume((x >= -128 && x <= 127) || x == i64::MIN || x == i64::MIN + 1 || x == i64::MAX);\n"
+                             "          kani::assume((y >= -16 && y <= 16) || y == i64::MIN || y == i64::MAX); }")
+                if n in ("multiply", "protected_divide") and fam == "float" and d >= 2 and not tier:
+                    extra = ("\n        // quick tier: operands from a table of special values x one arbitrary float is too heavy for the FP multiplier/divider;\n"
+                             "        // both operands come from the table (NaN, infinities, signed zeros, subnormal, 1.5, -2.0, MAX)\n"
+                             "        { let t = [f64::NAN, f64::INFINITY, f64::NEG_INFINITY, 0.0, -0.0, 5e-324, 1.5, -2.0, f64::MAX];\n"
+                             "          let (a, b): (usize, usize) = (kani::any(), kani::any()); kani::assume(a < 9 && b < 9);\n"
+                             "          let (x, y) = (pre.f.top(0), pre.f.top(1));\n"
+                             "          kani::assume(x.to_bits() == t[a].to_bits() && y.to_bits() == t[b].to_bits()); }")
                 intop = "Some(instr)" if fam == "int" else "None"
                 body = "%s%s\n        let instr = %s;\n        check_step(&instr, %s, pre, %s);" % (pre, extra, ctor, op, intop)
                 emit("c01_%s%s_%s_d%d" % ("t_" if tier else "", fam, n, d), body, tier)
+                if n == "power" and d == 2:
+                    # second half of Power's stated domain: small bases, exponents up to 70 (crosses the overflow boundary)
+                    extra2 = ("\n        { let (x, y) = (pre.i.top(0), pre.i.top(1)); kani::assume(x >= -3 && x <= 3 && y >= 0 && y <= 70); }")
+                    body2 = "%s%s\n        let instr = %s;\n        check_step(&instr, %s, pre, %s);" % (pre, extra2, ctor, op, intop)
+                    emit("c01_%s%s_%s_smallbase_d%d" % ("t_" if tier else "", fam, n, d), body2, tier)
         # destination stack with depth 0 (maximum may be 0): thorough
         if dest and dest != prim:
             di, df, db = tuple_for(prim, arity, dest, 0)
